@@ -32,6 +32,8 @@ in your Sphinx ``conf.py``
 
 """
 
+import inspect
+
 from sphinx.ext import autodoc
 
 from sigtools import specifiers, _util
@@ -51,9 +53,14 @@ def process_signature(app, what, name, obj, options,
     except (AttributeError, ImportError, ValueError):
         # ValueError: a top-level module name leaves nothing to import from
         return sig, return_annotation
-    if isinstance(obj, instancemethod): # python 2 unbound methods
+    if isinstance(obj, instancemethod) and obj.__self__ is None:
+        # python 2 unbound methods
         obj = obj.__func__
-    if isinstance(parent, type) and callable(obj):
+    if (
+            isinstance(parent, type) and callable(obj)
+            and not isinstance(
+                inspect.getattr_static(parent, name.rpartition('.')[2], None),
+                staticmethod)):
         try:
             obj = _util.safe_get(obj, object(), type(parent))
         except (TypeError, ValueError):
